@@ -230,8 +230,9 @@ theorem step_d (c : Conn) (op : ReadDeadline.Op) :
   cases op with
   | setDeadline t => simp only [ReadDeadline.step]; rw [release_d]
   | advance dt => simp only [ReadDeadline.step]; rw [release_d]
-  | arrive => simp only [ReadDeadline.step]; split <;> rfl
-  | read => simp only [ReadDeadline.step]; split <;> (try rfl); split <;> (try rfl); split <;> rfl
+  | arrive => simp only [ReadDeadline.step]; (repeat' split) <;> rfl
+  | read => simp only [ReadDeadline.step]; (repeat' split) <;> rfl
+  | close => simp only [ReadDeadline.step]; (repeat' split) <;> rfl
 
 theorem settled_step {c : Conn} (S : Settled c.d) (op : ReadDeadline.Op) : Settled (step c op).1.d := by
   rw [step_d]
@@ -240,5 +241,15 @@ theorem settled_step {c : Conn} (S : Settled c.d) (op : ReadDeadline.Op) : Settl
   | advance dt => exact settled_settle_advance S dt 2
   | arrive => exact S
   | read => exact S
+  | close => exact S
+
+/-! ### `close` -/
+
+/-- on every step a connection that is closed afterwards has no blocked read, provided that held before -/
+theorem closed_unblocked_step {c : Conn} (I : c.closed = true → c.blocked = false) (op : ReadDeadline.Op) :
+    (step c op).1.closed = true → (step c op).1.blocked = false := by
+  obtain ⟨d, q, b, cl⟩ := c
+  cases op <;> cases b <;> cases cl <;> simp only [] at I <;>
+    simp only [ReadDeadline.step, Conn.release] <;> (repeat' split) <;> simp at *
 
 end TV.Proofs.ReadDeadline
